@@ -57,6 +57,8 @@ pub struct UniCtx {
     pub handles: Mutex<Vec<(u16, Arc<dyn Fn() + Send + Sync>)>>,
     /// join handles exported by tasks
     pub exports: Mutex<Vec<(Path, JoinH)>>,
+    /// task-to-task channels (shared by every task of the universe, whatever command it lives in)
+    pub chans: Vec<Arc<crate::rt::Chan>>,
     /// legacy host: run programs through the capability API instead of returning commands
     pub legacy: bool,
     in_update: AtomicBool,
@@ -86,6 +88,7 @@ impl UniCtx {
             sink,
             handles: Mutex::new(vec![]),
             exports: Mutex::new(vec![]),
+            chans: (0..CHANS).map(|_| Arc::new(crate::rt::Chan::default())).collect(),
             legacy,
             in_update: AtomicBool::new(false),
             reentered: AtomicBool::new(false),
